@@ -168,6 +168,26 @@ func runC09(a *args) error {
 					}
 				}
 			}
+			// a successful search has consulted every partition of the dataset exactly once
+			if serr == nil {
+				asked := map[string]int{}
+				for _, m := range recorded {
+					for _, pid := range m.parts {
+						asked[uuid.FromBytesOrNil(pid).String()]++
+					}
+				}
+				bad := ""
+				for _, p := range d.meta.Partitions {
+					pid := uuid.FromBytesOrNil(p.Id).String()
+					if asked[pid] != 1 {
+						bad += fmt.Sprintf(" %s:%d", pid[:8], asked[pid])
+					}
+					delete(asked, pid)
+				}
+				if bad != "" || len(asked) > 0 {
+					st.ImplFailures = append(st.ImplFailures, implFailure{Case: len(cases), What: fmt.Sprintf("a successful search over %d partitions did not consult each exactly once (partition:times%s; %d unknown ids asked)", len(d.meta.Partitions), bad, len(asked)), Key: "partition-consultation", Input: fc})
+				}
+			}
 			switch {
 			case serr != nil:
 				fc.Obs = "err"
